@@ -116,6 +116,10 @@ def multi_flat_kernel(
                         kernel_result[ind + w_i] = 0
         ind += len(mset)
     kernel_result[target_ind] = 0
+    if mask_index is not None:
+        # the window always starts with the target's own multiset: a nullified mask has no contexts at all
+        if window[0][target_ind] == mask_index:
+            kernel_result[:] = 0
 
     if normalize:
         temp = kernel_result.sum()
@@ -151,6 +155,10 @@ def multi_geometric_kernel(
                         kernel_result[ind + w_i] = 0
         ind += len(mset)
     kernel_result[target_ind] = 0
+    if mask_index is not None:
+        # the window always starts with the target's own multiset: a nullified mask has no contexts at all
+        if window[0][target_ind] == mask_index:
+            kernel_result[:] = 0
 
     if normalize:
         temp = kernel_result.sum()
